@@ -604,7 +604,7 @@ func c06Flags(c *Ctx, r *Report) {
 // ---- R06.5 -----------------------------------------------------------------
 func c06JSON(c *Ctx, r *Report) {
 	r.Rule("R06.5", "JSON typing: in the JSON scalar decoder a string token becomes FromString (never inferred), a json.Number token becomes FromInferredType (the flag-selected inferrer decides), bool → FromBool, null → NULL; decoder.UseNumber() precedes the first Token(); no other constructor is applied to a scalar token")
-	f := c.SSAFunc(c.LookupFunc("pkg/mlrval", "MlrvalDecodeFromJSON"))
+	f := throughWrappers(c.SSAFunc(c.LookupFunc("pkg/mlrval", "MlrvalDecodeFromJSON")))
 	if f == nil {
 		r.Undecided("R06.5", "MlrvalDecodeFromJSON", "", "anchor not found")
 		return
@@ -661,4 +661,37 @@ func c06JSON(c *Ctx, r *Report) {
 		r.Check(len(g) == 1 && g[0] == want[tn], "R06.5", "JSON "+tn+" token", c.Rel(f.Pos()), strings.Join(g, ","),
 			fmt.Sprintf("a JSON %s token is converted with %v, expected exactly %s: JSON strings would be type-inferred / JSON numbers would bypass the inferrer selected by -S, -A, -O", tn, g, want[tn]))
 	}
+}
+
+// throughWrappers follows a function that does nothing but call another
+// function of its package and return that call's results (an entry point in
+// front of a worker that carries an extra argument) to the worker.
+func throughWrappers(f *ssa.Function) *ssa.Function {
+	for depth := 0; f != nil && f.Blocks != nil && depth < 3; depth++ {
+		if len(f.Blocks) != 1 {
+			return f
+		}
+		var only *ssa.Call
+		for _, in := range f.Blocks[0].Instrs {
+			switch x := in.(type) {
+			case *ssa.Call:
+				if only != nil {
+					return f
+				}
+				only = x
+			case *ssa.Extract, *ssa.Return, *ssa.DebugRef:
+			default:
+				return f
+			}
+		}
+		if only == nil {
+			return f
+		}
+		sc := only.Call.StaticCallee()
+		if sc == nil || sc.Pkg != f.Pkg || sc.Blocks == nil {
+			return f
+		}
+		f = sc
+	}
+	return f
 }
